@@ -371,7 +371,7 @@ def build(cfg, hist, d):
 def expand(task):
     cfg, hist = task
     tier = os.environ.get("XV_TIER", "quick")
-    d = os.path.join(core.scratch_root(), "c15.results.batches")
+    d = os.path.join(core.scratch_root(), "c15.results[1].batches")
     w = build(cfg, hist, d)
     out = {"hist": hist, "succ": []}
     if not hist:
@@ -420,7 +420,7 @@ def run(ctx):
 
 
 def replay(case):
-    d = os.path.join(core.scratch_root(), "c15.results.batches")
+    d = os.path.join(core.scratch_root(), "c15.results[1].batches")
     cfg, hist = case["cfg"], case["history"]
     w = build(cfg, hist[:-1], d)
     ev = hist[-1]
